@@ -67,11 +67,16 @@ def ensure_extractor():
         raise SystemExit("extractor build failed")
 
 
+# The release configuration is what is analysed: debug_assert!() and cfg(debug_assertions) code is compiled out, as in the shipped binaries;
+# arithmetic overflow checks are kept so that every overflow site stays a visible obligation (an Assert terminator) for the no-panic rules.
+RUSTFLAGS = "-Zmir-opt-level=0 -Awarnings -Cdebug-assertions=off -Coverflow-checks=on"
+
+
 def extract(repo="/repo", feature="default", quiet=True):
     """Return {crate-key: facts dict} for the given tree and feature set."""
     ensure_extractor()
     os.makedirs(CACHE, exist_ok=True)
-    key = hashlib.sha256((tree_hash(repo) + feature + extractor_version()).encode()).hexdigest()[:24]
+    key = hashlib.sha256((tree_hash(repo) + feature + extractor_version() + RUSTFLAGS).encode()).hexdigest()[:24]
     fdir = os.path.join(CACHE, "facts", key)
     lock = open(os.path.join(CACHE, "lock"), "w")
     fcntl.flock(lock, fcntl.LOCK_EX)
@@ -88,7 +93,7 @@ def extract(repo="/repo", feature="default", quiet=True):
             env.update({
                 "RT_FACTS_DIR": fdir,
                 "LD_LIBRARY_PATH": os.path.join(sysroot(), "lib"),
-                "RUSTFLAGS": "-Zmir-opt-level=0 -Awarnings",
+                "RUSTFLAGS": RUSTFLAGS,
                 "RUSTC_WORKSPACE_WRAPPER": EXTRACT_BIN,
                 "CARGO_TARGET_DIR": tdir,
                 "CARGO_NET_OFFLINE": "true",
@@ -132,7 +137,7 @@ def extract_crate(crate_dir, quiet=True):
     """Extract a stand-alone crate (the positive fixture). No caching of facts beyond a content key."""
     ensure_extractor()
     os.makedirs(CACHE, exist_ok=True)
-    key = hashlib.sha256((tree_hash(crate_dir) + "fixture" + extractor_version()).encode()).hexdigest()[:24]
+    key = hashlib.sha256((tree_hash(crate_dir) + "fixture" + extractor_version() + RUSTFLAGS).encode()).hexdigest()[:24]
     fdir = os.path.join(CACHE, "facts", "fx-" + key)
     lock = open(os.path.join(CACHE, "lock"), "w")
     fcntl.flock(lock, fcntl.LOCK_EX)
@@ -146,7 +151,7 @@ def extract_crate(crate_dir, quiet=True):
             env.update({
                 "RT_FACTS_DIR": fdir,
                 "LD_LIBRARY_PATH": os.path.join(sysroot(), "lib"),
-                "RUSTFLAGS": "-Zmir-opt-level=0 -Awarnings",
+                "RUSTFLAGS": RUSTFLAGS,
                 "RUSTC_WORKSPACE_WRAPPER": EXTRACT_BIN,
                 "CARGO_TARGET_DIR": tdir,
                 "CARGO_NET_OFFLINE": "true",
